@@ -83,3 +83,30 @@ func (memPool *MemPool) VerifAge(d time.Duration) {
 		tx.time = tx.time.Add(-d)
 	}
 }
+
+// ---- TxTracker ----
+
+func (tracker *TxTracker) VerifHas(txid bitcoin.Hash32) bool {
+	tracker.mutex.Lock()
+	defer tracker.mutex.Unlock()
+	_, ok := tracker.txids[txid]
+	return ok
+}
+
+func (tracker *TxTracker) VerifList() []bitcoin.Hash32 {
+	tracker.mutex.Lock()
+	defer tracker.mutex.Unlock()
+	r := make([]bitcoin.Hash32, 0, len(tracker.txids))
+	for h := range tracker.txids {
+		r = append(r, h)
+	}
+	return r
+}
+
+func (tracker *TxTracker) VerifAge(d time.Duration) {
+	tracker.mutex.Lock()
+	defer tracker.mutex.Unlock()
+	for h, t := range tracker.txids {
+		tracker.txids[h] = t.Add(-d)
+	}
+}
